@@ -384,16 +384,45 @@ func runC04(cfg config) {
 		"Observation.component.value", "Observation.component.value.toString()", "Observation.component.value.where($this > @T01:00)", "Observation.component.value = @T23:59:59",
 		"Observation.effective", "Observation.effective.toString()", "Observation.effective < now()", "Observation.effective = @2024-03-10T01:30:00+05:30", "Observation.effective.toDate()", "Observation.effective + 2 hours",
 		"Observation.issued", "Observation.issued.toString()", "Observation.issued > @2020-01-01T00:00:00Z", "Observation.issued.toDateTime()", "Observation.issued = @2024-03-09T20:00:00.123Z"}
+	// calendar arithmetic on values whose written offset is one the process zone uses, across that zone's daylight-saving
+	// changes: the offset a value was written with is kept, whatever zone the process runs in
+	tzProgs = append(tzProgs,
+		"@2020-03-07T12:00:00-03:30 + 1 day", "(@2020-03-07T12:00:00-03:30 + 1 day).toString()", "(@2020-03-07T12:00:00-03:30 + 1 day) = @2020-03-08T12:00:00-03:30",
+		"@2020-03-07T12:00:00-03:30 + 24 hours", "@2020-11-01T00:30:00-02:30 - 1 day", "@2020-03-07T12:00:00-05:00 + 1 day", "@2020-11-01T12:00:00-04:00 - 1 month",
+		"@2020-03-28T12:00:00Z + 1 day", "(@2020-03-28T12:00:00+00:00 + 1 day).toString()", "@2020-10-24T12:00:00+01:00 + 1 day", "@2020-04-04T12:00:00+13:45 + 1 day",
+		"@2020-09-26T12:00:00+12:45 + 1 day", "@2020-10-03T12:00:00+10:30 + 1 day", "@2021-04-03T12:00:00+11:00 + 1 day", "@2020-03-07T12:00:00-03:30 + 1 month",
+		"Observation.effective + 1 day", "(Observation.effective + 5 days).toString()", "Observation.issued.toDateTime() + 1 day")
+	dstZones := []*time.Location{}
+	for _, name := range []string{"America/St_Johns", "America/New_York", "Europe/London", "Pacific/Chatham", "Australia/Lord_Howe", "Asia/Kolkata"} {
+		if loc, err := time.LoadLocation(name); err == nil {
+			dstZones = append(dstZones, loc)
+		}
+	}
+	sink.extra["process_zones_with_daylight_saving_rules"] = len(dstZones)
+	dstObs := dstObservation()
 	for _, p := range tzProgs {
 		e, err := fhirpath.Compile(p, compopts.WithExperimentalFuncs())
 		if err != nil {
 			continue
 		}
 		target := tzRes[strings.SplitN(p, ".", 2)[0]]
+		if strings.Contains(p, " day") && strings.HasPrefix(p, "Observation.") {
+			target = dstObs
+		}
+		if target == nil {
+			target = res
+			if strings.Contains(p, "Observation.") {
+				target = dstObs
+			}
+		}
 		savedLocal := time.Local
 		same, first := true, ""
-		for zi, procTZ := range zones {
+		for zi, procTZ := range append(append([]*time.Location{}, zones...), dstZones...) {
 			time.Local = procTZ
+			// literals are read at compile time: compile under the process zone as well
+			if e2, cerr := fhirpath.Compile(p, compopts.WithExperimentalFuncs()); cerr == nil {
+				e = e2
+			}
 			a := c04Evaluate(e, target, fixed)
 			if zi == 0 {
 				first = a
@@ -449,7 +478,7 @@ func runC04(cfg config) {
 		if !ok {
 			continue
 		}
-		sink.add(fmt.Sprintf("CRun %s, ORun %s true true true", coqN(uint64(100000+pi)), coqBool(same)), "under five process time zones: "+p, "run-tz", fmt.Sprintf("run-tz:%d", pi))
+		sink.add(fmt.Sprintf("CRun %s, ORun %s true true true", coqN(uint64(100000+pi)), coqBool(same)), "under eleven process time zones (five fixed offsets, six with daylight-saving rules; compiled and evaluated under each): "+p, "run-tz", fmt.Sprintf("run-tz:%d", pi))
 	}
 	c04OrderStage(cfg, sink)
 	sink.finish("every (resource type, navigation program) pair evaluated in two fresh processes in opposite orders (order independence); random histories of Compile / patch.Compile calls with AddFunction (fresh, duplicate, built-in names, bad signatures), WithExperimentalFuncs, Permissive: visibility of eight probe names after each; "+
